@@ -594,19 +594,17 @@ theorem commonFuncsJs_afterLingo : ∀ (fs : List FuncDef) (first : Bool), commo
   | [], first => by simp [commonFuncsJs]
   | f :: fs, first => by simp [commonFuncsJs, commonFuncJs_afterLingoFunc, commonFuncsJs_afterLingo fs false]
 
-theorem wrappers_afterLingo (fs : List FuncDef) :
-    ((fs.map afterLingoFunc).map fun f =>
-      if inBirth f.name then [] else
-        S "function " ++ f.name ++ S "(obj, ...args) {\n" ++ indentOf 1 ++ S "return obj." ++ f.name ++ S "(...args);\n" ++ S "}\n") =
-    (fs.map fun f =>
-      if inBirth f.name then [] else
-        S "function " ++ f.name ++ S "(obj, ...args) {\n" ++ indentOf 1 ++ S "return obj." ++ f.name ++ S "(...args);\n" ++ S "}\n") := by
+theorem map_afterLingoFunc_name (g : Str → Str) (fs : List FuncDef) :
+    ((fs.map afterLingoFunc).map fun f => g f.name) = fs.map fun f => g f.name := by
   induction fs with
   | nil => rfl
   | cons f fs ih => simp [afterLingoFunc]
 
 /-- JavaScript after Lingo is the JavaScript of the fresh tree -/
 theorem jsText_afterLingoScript (s : Script) : jsText (afterLingoScript s) = jsText s := by
-  simp only [jsText, afterLingoScript, classJs, factoryJs, jsMethods_afterLingo, commonFuncsJs_afterLingo, wrappers_afterLingo]
+  have hw := map_afterLingoFunc_name (fun n => if inBirth n then [] else
+      S "function " ++ n ++ S "(obj, ...args) {\n" ++ indentOf 1 ++ S "return obj." ++ n ++ S "(...args);\n" ++ S "}\n") s.functions
+  simp only [jsText, afterLingoScript, classJs, factoryJs, jsMethods_afterLingo, commonFuncsJs_afterLingo]
+  simp only [hw]
 
 end Drx.Lscr
